@@ -260,6 +260,15 @@ fn type_family() -> Vec<TypeEntry> {
         ty!("VecU8", Vec<u8>, true),
         ty!("OptionPlain", Option<Plain>, true),
         ty!("OptionU8", Option<u8>, true),
+        // Option<T> of a referenceable T as a whole type: {$ref, nullable: true}
+        ty!("OptionTree", Option<types::Tree>, true),
+        ty!("OptionUnitEnum", Option<types::UnitEnum>, true),
+        ty!("OptionInternal", Option<types::Internal>, true),
+        // ... and nested in an inline (non-referenceable) type, where schemars'
+        // visitors do not rewrite it
+        ty!("VecOptionPlain", Vec<Option<types::Plain>>, true),
+        ty!("MapOptionPlain", std::collections::BTreeMap<String, Option<types::Plain>>, true),
+        ty!("OptionOptionPlain", Option<Option<types::Plain>>, true),
         ty!("OptionUnit", Option<()>, true),
         ty!("MapStringTree", std::collections::BTreeMap<String, Tree>, true),
         ty!("Array3", [u8; 3], true),
